@@ -56,12 +56,16 @@ FRAG = {
           {"insertions": a_ins, "elements": {"2": {"hide": True}}, "prune": True},
           {"insertions": a_diff2},
           {"order": {"type": "label"}}, {"insertions": a_ins, "order": {"type": "opposing_element", "element_id": 1,
-                                                                        "measure": "count_unweighted"}}],
+                                                                        "measure": "count_unweighted"}},
+          # a sort key that names no element of the opposing dimension: both orientations fall back to payload order
+          {"insertions": a_ins, "order": {"type": "opposing_element", "element_id": 99, "measure": "count_unweighted"}}],
     "d": [{}, {"insertions": a_ins}, {"insertions": a_ins, "prune": True}, {"insertions": a_diff2}],
     "b": [{}, {"insertions": b_ins}, {"insertions": b_diff}, {"insertions": b_ins, "order": {"type": "explicit", "element_ids": [2, 1]}},
           {"elements": {"1": {"hide": True}}}, {"prune": True, "order": {"type": "label"}},
           {"insertions": b_ins + [subtotal("b2", [2], anchor="bottom", sid=7)],
-           "order": {"type": "opposing_insertion", "insertion_id": 1, "measure": "count_unweighted"}}],
+           "order": {"type": "opposing_insertion", "insertion_id": 1, "measure": "count_unweighted"}},
+          {"order": {"type": "opposing_element", "element_id": 99, "measure": "count_unweighted", "direction": "ascending"}},
+          {"order": {"type": "opposing_insertion", "insertion_id": 99, "measure": "count_unweighted"}}],
     "m": [{}, {"order": {"type": "explicit", "element_ids": ["m_2", "m_1"]}}, {"elements": {"m_1": {"hide": True}}, "prune": True}],
     "n": [{}, {"order": {"type": "label", "direction": "ascending"}}, {"prune": True}],
     "q": [{}],
